@@ -148,7 +148,9 @@ func (hs *serverHandshakeState) readClientHello() (isResume bool, err error) {
 	}
 
 	c.vers, ok = c.config.mutualVersion(hs.clientHello.vers)
-	if !ok {
+	if !ok || c.vers < VersionSSL30 {
+		// (the configured minimum may be the GMSSL version number, which this TLS-only
+		// path does not implement: neither it nor anything else below SSL 3.0)
 		c.sendAlert(alertProtocolVersion)
 		return false, fmt.Errorf("tls: client offered an unsupported, maximum protocol version of %x", hs.clientHello.vers)
 	}
